@@ -550,11 +550,22 @@ fn main() {
         std::process::exit(2);
     }
     let out = Path::new(&a[1]);
-    std::fs::create_dir_all(out).unwrap();
+    if a.get(3).map(|s| s.as_str()) != Some("probe") {
+        std::fs::create_dir_all(out).unwrap();
+    }
     let seed = std::env::var("VERIF_SEED").ok().and_then(|s| s.parse::<u64>().ok()).unwrap_or(1);
     match a.get(3).map(|s| s.as_str()).unwrap_or("c01") {
         "c01" => main_c01(out, &a[2], seed),
         "c05" => c05::main_c05(out, &a[2], seed),
+        "probe" => run::probe(out),
+        "shrinkcfg" => {
+            // h01 <out> <tier> shrinkcfg <crate> <n_progs> <n_vecs> <tag> <needle>
+            let mut st = genp::Stats::default();
+            let (progs, _, _) = generate_crate(seed, a[4].parse().unwrap(), a[5].parse().unwrap(), a[6].parse().unwrap(), &mut st);
+            let p = progs.iter().find(|p| p.tag == a[7]).expect("program tag");
+            let q = shrink::shrink_compile_failure(out, p, &a[8]);
+            println!("{}", q.cairo());
+        }
         m => {
             eprintln!("unknown mode {m}");
             std::process::exit(2);
